@@ -160,7 +160,8 @@ type smootherRef struct {
 	weight     float64
 	dist       float64
 	hard       func(C3) bool
-	voxelLimit float64 // > 0: VoxelSmoother
+	cfunc      func(origin, cur C3) C3 // MeshSmoother.ConstraintFunc
+	voxelLimit float64                 // > 0: VoxelSmoother
 }
 
 func (s *smootherRef) run(im *imesh) ([]C3, bool) {
@@ -178,6 +179,13 @@ func (s *smootherRef) run(im *imesh) ([]C3, bool) {
 					d = d.Scale((n - s.dist) / n)
 				}
 				next[i] = p.Add(d.Scale(2 * s.weight * s.step))
+			}
+		}
+		if s.cfunc != nil {
+			// documented: called with the original and the current position, its result is added
+			// times the step size (after the quadratic constraint, before the area term)
+			for i, p := range next {
+				next[i] = p.Add(s.cfunc(im.pts[i], p).Scale(s.step))
 			}
 		}
 		g, ok := areaGrad(cur, im.faces)
@@ -246,6 +254,17 @@ func secSmoothers(r *vlib.Run) {
 				sm.HardConstraintFunc = hard
 				ref.hard = hard
 				extra["hard_plane"] = fmt.Sprintf("n=%s d=%x", hex3(n), d)
+			}
+			if rng.Intn(3) == 0 {
+				// a caller-supplied soft constraint: a pull towards a plane through the mesh
+				pn := randUnit(rng)
+				pd := pn.Dot(in.im.pts[rng.Intn(len(in.im.pts))])
+				kk := 0.2 + rng.Float64()
+				cf := func(origin, cur C3) C3 { return pn.Scale(-kk * (pn.Dot(cur) - pd) * 0.1).Add(origin.Sub(cur).Scale(0.05)) }
+				sm.ConstraintFunc = cf
+				ref.cfunc = cf
+				extra["constraint_func"] = fmt.Sprintf("plane n=%s d=%x k=%g", hex3(pn), pd, kk)
+				c.Count("smoothers.with_constraint_func", 1)
 			}
 			extra["smoother"] = fmt.Sprintf("weight=%g dist=%g", sm.ConstraintWeight, sm.ConstraintDistance)
 			out = vlib.Tris(sm.Smooth(in.mesh))
